@@ -25,7 +25,7 @@ ASSUMPTIONS = [
     "node functions are pure; setup values are deterministic (a setup node re-run after a failed call is legitimate)",
     "one executor object is used from one thread",
 ]
-BUDGET = {"quick": {"shards": 4, "seconds": 40}, "thorough": {"shards": 16, "seconds": 420}}
+BUDGET = {"quick": {"shards": 8, "seconds": 40}, "thorough": {"shards": 16, "seconds": 420}}
 ARGPOOL = [0, 1, "a", None, {"T": [1, 2]}, "BOOM"]
 
 
